@@ -482,7 +482,8 @@ def verify_contract(con, instance=None, timeout_ms=30000, resolver=None, want_sm
         types = dict(con.types)
         if instance:
             types.update(instance.get('types', {}))
-        self_class = con.qual.split('.')[0] if '.' in con.qual and con.qual.split('.')[0] in S.CLASSES else None
+        self_class = getattr(con, 'self_class', None) or \
+            (con.qual.split('.')[0] if '.' in con.qual and con.qual.split('.')[0] in S.CLASSES else None)
         ex = Exec(ctx, con, types, resolver, self_class=self_class)
         body = strip_docstring(node.body)
         ex.mutated_names = mutated_names(body)
